@@ -325,7 +325,7 @@ def run_history(env, rng, peers, n_sessions, steps, oversize_bias=0.08, reply_bi
         k = rng.random()
         if k < oversize_bias:
             # a request that cannot fit the buffer
-            s.send("getmany", [rand_oid_text(rng, long=True) for _ in range(rng.randrange(7, 12))])
+            s.send("getmany", [rand_oid_text(rng, long=True) for _ in range(rng.choice([7, 8, 9, 11, 16, 24, 40]))])   # just over .. far beyond
             continue
         if k < oversize_bias + 0.06:
             if rng.random() < 0.5:
